@@ -720,7 +720,9 @@ func (up4 *UP4) addOrUpdateGTPTunnelPeer(far far) error {
 
 	releaseTnlPeerID := func() {
 		if !exists {
-			up4.unsafeReleaseAllocatedGTPTunnelPeer(tunnelParameters)
+			// the new peer is not registered yet (that happens only after a successful write),
+			// so its ID goes straight back to the queue
+			up4.tunnelPeerIDsPool = append(up4.tunnelPeerIDsPool, tnlPeer.id)
 		}
 	}
 
